@@ -915,12 +915,12 @@ func (self *LockDB) restructuringLongTimeOutQueue(longLocks *LongWaitLockQueue) 
 		_ = longLocks.Push(lock)
 	}
 
-	for tailNodeIndex > longLocks.locks.tailNodeIndex+1 {
-		longLocks.locks.queues[tailNodeIndex] = nil
-		longLocks.locks.nodeQueueSizes[tailNodeIndex] = 0
-		tailNodeIndex--
+	for longLocks.locks.nodeIndex > longLocks.locks.tailNodeIndex+1 {
+		longLocks.locks.queues[longLocks.locks.nodeIndex] = nil
+		longLocks.locks.nodeQueueSizes[longLocks.locks.nodeIndex] = 0
+		longLocks.locks.nodeIndex--
 	}
-	longLocks.locks.queueSize = longLocks.locks.baseQueueSize * int32(uint32(1)<<uint32(tailNodeIndex))
+	longLocks.locks.queueSize = longLocks.locks.baseQueueSize * int32(uint32(1)<<uint32(longLocks.locks.nodeIndex))
 	if longLocks.locks.queueSize > QUEUE_MAX_MALLOC_SIZE {
 		longLocks.locks.queueSize = QUEUE_MAX_MALLOC_SIZE
 	}
@@ -1177,12 +1177,12 @@ func (self *LockDB) restructuringLongExpriedQueue(longLocks *LongWaitLockQueue) 
 		_ = longLocks.Push(lock)
 	}
 
-	for tailNodeIndex > longLocks.locks.tailNodeIndex+1 {
-		longLocks.locks.queues[tailNodeIndex] = nil
-		longLocks.locks.nodeQueueSizes[tailNodeIndex] = 0
-		tailNodeIndex--
+	for longLocks.locks.nodeIndex > longLocks.locks.tailNodeIndex+1 {
+		longLocks.locks.queues[longLocks.locks.nodeIndex] = nil
+		longLocks.locks.nodeQueueSizes[longLocks.locks.nodeIndex] = 0
+		longLocks.locks.nodeIndex--
 	}
-	longLocks.locks.queueSize = longLocks.locks.baseQueueSize * int32(uint32(1)<<uint32(tailNodeIndex))
+	longLocks.locks.queueSize = longLocks.locks.baseQueueSize * int32(uint32(1)<<uint32(longLocks.locks.nodeIndex))
 	if longLocks.locks.queueSize > QUEUE_MAX_MALLOC_SIZE {
 		longLocks.locks.queueSize = QUEUE_MAX_MALLOC_SIZE
 	}
